@@ -213,7 +213,13 @@ def generic(res, pid, prop_v, corr_runs, oracle_prop, what_for, rule, thorough_r
     mismatches, oracle_fails = [], []
     if st["driver"]:
         for label, args in (thorough_runs if (thorough and thorough_runs) else corr_runs):
-            s = hrun(res, args, seed=(args[0] not in ("loop", "forest")))
+            try:
+                s = hrun(res, args, seed=(args[0] not in ("loop", "forest")))
+            except V.Stalled as e:
+                # the run that ties the model to the code does not terminate on this tree: the implementation stalls on
+                # one of its inputs (or has become far slower); the property is no longer shown to hold
+                mismatches.append({"kind": "harness-stalled", "run": label, "detail": str(e)})
+                continue
             merge_cov(res, s, label)
             for m in (s.get("mismatches") or []):
                 mismatches.append(dict(m, run=label))
